@@ -86,7 +86,9 @@ def hll_layout(st):
         t += [(rep("u32le"), ANY)]
         return t
     typ = m - 2
-    flags = 16 if st["ooo"] else 0
+    # Hll4: the aux pairs follow back to back, which is the compact form and must be flagged as such (a non-compact Hll4 image is
+    # read by Java/C++ as carrying the whole aux table of 2^lg_arr ints); Hll6/Hll8 bytes are the same in both forms
+    flags = (16 if st["ooo"] else 0) | (8 if typ == 0 else 0)
     t = [("u8", 10), ("u8", 1), ("u8", 7), ("u8", st["lgk"]), ("u8", ANY), ("u8", flags), ("u8", st["curmin"] if typ == 0 else 0), ("u8", 2 | (typ << 2)),
          ("f64le", "hip"), ("f64le", "kxq0"), ("f64le", "kxq1"), ("u32le", "numatcurmin"), ("u32le", st["aux"] if typ == 0 else 0), ("bytes", ANY)]
     if typ == 0 and st["aux"]:
